@@ -2,8 +2,13 @@ use super::ReserveError;
 
 use core::{mem, ptr, slice, str};
 
+#[cfg(not(feature = "verif-hooks"))]
 #[cfg(not(loom))]
 use core::sync::atomic::{Ordering::*, fence};
+#[cfg(all(not(loom), feature = "verif-hooks"))]
+use crate::verif_hooks::fence;
+#[cfg(all(not(loom), feature = "verif-hooks"))]
+use core::sync::atomic::Ordering::*;
 #[cfg(loom)]
 use loom::sync::atomic::{Ordering::*, fence};
 
@@ -266,6 +271,8 @@ impl Repr {
             // SAFETY:
             // `heap.len() <= new_capacity` and `new_capacity <= MAX_INLINE_SIZE`
             // thus, `heap.len() <= MAX_INLINE_SIZE`
+            #[cfg(feature = "verif-hooks")]
+            crate::verif_hooks::note_read(heap.as_str().as_ptr(), heap.as_str().len());
             let inline = unsafe { InlineBuffer::new(heap.as_str()) };
             Repr::from_inline(inline)
         } else if new_capacity >= old_capacity {
@@ -307,6 +314,8 @@ impl Repr {
         };
 
         debug_assert_eq!(push_buffer.len(), string.len());
+        #[cfg(feature = "verif-hooks")]
+        crate::verif_hooks::note_write(push_buffer.as_ptr(), push_buffer.len());
         push_buffer.copy_from_slice(string.as_bytes());
 
         // SAFETY:
@@ -364,6 +373,8 @@ impl Repr {
         // Remove the char by shifting the rest of the string to the left.
         // SAFETY: Both `src_ptr` and `dst_ptr` are valid for reads of `bytes_count` bytes, and are
         // properly aligned.
+        #[cfg(feature = "verif-hooks")]
+        crate::verif_hooks::note_write(substr.as_ptr(), substr.len());
         unsafe {
             let dst_ptr = substr.as_mut_ptr();
             let src_ptr = dst_ptr.add(ch_len);
@@ -392,6 +403,8 @@ impl Repr {
         let len = self.len();
         let mut g = SetLenOnDrop { self_: self, src_idx: 0, dst_idx: 0 };
         let str = unsafe { g.self_.as_str_mut() };
+        #[cfg(feature = "verif-hooks")]
+        crate::verif_hooks::note_write(str.as_ptr(), str.len());
 
         while g.src_idx < len {
             // SAFETY: `g.src_idx` is positive-or-zero and less that len so the `get_unchecked` is
@@ -446,6 +459,8 @@ impl Repr {
         unsafe {
             // first move the tail to the new back
             let data = self.as_slice_mut().as_mut_ptr();
+            #[cfg(feature = "verif-hooks")]
+            crate::verif_hooks::note_write(data.add(idx), new_len - idx);
             ptr::copy(data.add(idx), data.add(idx + string.len()), new_len - idx - string.len());
 
             // then insert the new bytes
@@ -753,5 +768,29 @@ impl Repr {
     unsafe fn as_static_buffer_mut(&mut self) -> &mut StaticBuffer {
         // SAFETY: A `Repr` is transmuted from `StaticBuffer`
         unsafe { &mut *(self as *mut _ as *mut StaticBuffer) }
+    }
+}
+
+#[cfg(feature = "verif-hooks")]
+impl Repr {
+    /// Untraced read of the reference count (observer for the verification harness).
+    pub(crate) fn verif_refcount(&self) -> Option<usize> {
+        if self.is_heap_buffer() {
+            // SAFETY: We just checked that `self` is HeapBuffer
+            Some(unsafe { self.as_heap_buffer() }.reference_count().peek())
+        } else {
+            None
+        }
+    }
+
+    /// Untraced write of the reference count (fault injection for the verification harness).
+    pub(crate) fn verif_poke_refcount(&self, v: usize) -> bool {
+        if self.is_heap_buffer() {
+            // SAFETY: We just checked that `self` is HeapBuffer
+            unsafe { self.as_heap_buffer() }.reference_count().poke(v);
+            true
+        } else {
+            false
+        }
     }
 }
